@@ -632,6 +632,8 @@ inductive LexSt where
   | str (acc : Str)
   | minus
   | eq
+  | slash                           -- a `/`: division sign, or the start of `//`
+  | comment                         -- inside a `// …` comment (to the end of the line)
 deriving DecidableEq, Repr
 
 /-- tokens completed when the pending token ends (`none`: it cannot end here) -/
@@ -647,6 +649,8 @@ def LexSt.flush : LexSt → Option (List Tok)
   | .str _ => none
   | .minus => some [.sym '-']
   | .eq => none
+  | .slash => some [.sym '/']
+  | .comment => some []
 
 /-- a character that cannot continue the pending token: emit it and start afresh -/
 def lexDelim (pending : Option (List Tok)) (c : Char) : Option (List Tok × LexSt) :=
@@ -654,6 +658,7 @@ def lexDelim (pending : Option (List Tok)) (c : Char) : Option (List Tok × LexS
   | none => none
   | some p =>
     if isSpace c then some (p, .idle)
+    else if c == '/' then some (p, .slash)
     else if isSymChar c then some (p ++ [.sym c], .idle)
     else if isAlpha c then some (p, .word [c])
     else if isDigit c then some (p, .int [c])
@@ -689,6 +694,8 @@ def lexStep (st : LexSt) (c : Char) : Option (List Tok × LexSt) :=
   | .expD a => if isDigit c then some ([], .expD (c :: a)) else lexDelim st.flush c
   | .minus => if c == '>' then some ([.arrow], .idle) else lexDelim st.flush c
   | .eq => if c == '=' then some ([.eqeq], .idle) else none
+  | .slash => if c == '/' then some ([], .comment) else lexDelim st.flush c
+  | .comment => some ([], .comment)
   | .idle => lexDelim (some []) c
 
 /-- the single-pass (maximal-munch) lexer; `none` = not a token sequence of OpenQASM 2.0 -/
@@ -699,13 +706,21 @@ def lexGo : LexSt → Str → Option (List Tok)
     | none => none
     | some (out, st') => (lexGo st' cs).map (out ++ ·)
 
-/-- cut a trailing `// comment` -/
-def stripComment : Str → Str
-  | '/' :: '/' :: _ => []
-  | c :: cs => c :: stripComment cs
-  | [] => []
+/-- run the lexer over a piece of text: tokens completed so far and the state reached -/
+def lexRun : LexSt → Str → Option (List Tok × LexSt)
+  | st, [] => some ([], st)
+  | st, c :: cs =>
+    match lexStep st c with
+    | none => none
+    | some (out, st') => (lexRun st' cs).map (fun r => (out ++ r.1, r.2))
 
-def lexLine (s : Str) : Option (List Tok) := lexGo .idle (stripComment s)
+/-- the text is exactly one numeric token of the standard: a `real`, or an `nninteger` -/
+def isNumToken (s : Str) : Bool :=
+  match lexRun .idle s with
+  | some ([], st) => st.flush == some [.real s] || (st.flush == some [.nat s] && isNNInt s)
+  | _ => false
+
+def lexLine (s : Str) : Option (List Tok) := lexGo .idle s
 
 /-! ### Parser (token level) -/
 
@@ -917,20 +932,29 @@ def pBody : Nat → List Tok → Option (List GOp)
     | none => none
   | _ + 1, _ => none
 
+/-- `id [ nninteger ] ;` of a register declaration -/
+def pRegDecl (ts : List Tok) : Option (Str × Nat) :=
+  match ts with
+  | [.word r, .sym '[', .nat k, .sym ']', .sym ';'] =>
+    if isId r && isNNInt k then some (r, digitsVal k) else none
+  | _ => none
+
 /-- one-line statement; `some none` = blank line -/
 def parseToks (ts : List Tok) : Option (Option Stmt) :=
   match ts with
   | [] => some none
-  | [.word w, .real v, .sym ';'] =>
-    if w == cs!"OPENQASM" && v == cs!"2.0" then some (some .version) else none
-  | [.word w, .str f, .sym ';'] => if w == cs!"include" then some (some (.incl f)) else none
-  | [.word w, .word r, .sym '[', .nat k, .sym ']', .sym ';'] =>
-    if !(isId r && isNNInt k) then none
-    else if w == cs!"qreg" then some (some (.qreg r (digitsVal k)))
-    else if w == cs!"creg" then some (some (.creg r (digitsVal k)))
-    else (pQOp ts).map (fun op => some (.qop op))
   | .word w :: r =>
-    if w == cs!"gate" then
+    if w == cs!"OPENQASM" then
+      match r with
+      | [.real v, .sym ';'] => if v == cs!"2.0" then some (some .version) else none
+      | _ => none
+    else if w == cs!"include" then
+      match r with
+      | [.str f, .sym ';'] => some (some (.incl f))
+      | _ => none
+    else if w == cs!"qreg" then (pRegDecl r).map (fun (n, k) => some (.qreg n k))
+    else if w == cs!"creg" then (pRegDecl r).map (fun (n, k) => some (.creg n k))
+    else if w == cs!"gate" then
       match r with
       | .word name :: r1 =>
         if !isId name then none else
